@@ -142,6 +142,13 @@ def literalClosed : List Char → Bool
       | _ :: r' => literalClosed r'
     else c ≠ '\'' && c ≠ '\n' && c ≠ '\r' && literalClosed r
 
+/-- ECMA-262 object literal: the property definitions are separated by commas (a trailing comma
+    is allowed): every property except the last must be followed by one -/
+def wellSeparated {α : Type} : List (α × Bool) → Bool
+  | [] => true
+  | [_] => true
+  | p :: q :: r => p.2 && wellSeparated (q :: r)
+
 -- ------------------------------------------------------------------ (c) RCDATA character references
 
 def decDigits (acc cnt : Nat) : List Char → Nat × Nat × List Char
